@@ -167,3 +167,69 @@ func VF_C06_ColumnOrder() {
 	vf.Cover("c06.order")
 	vf.Assert(vf.And(rows[0].GetValue(sc, 0).ToInteger() == 7, vf.And(rows[0].GetValue(sc, 1).ToInteger() == w.b, rows[0].GetValue(sc, 2).ToInteger() == w.a)), "selected columns come in the order written")
 }
+
+// ---- varchar column (skip-list indexed): one Skolem row, one or two comparisons with symbolic short strings ----
+
+func symStr(maxLen int) string {
+	n := vf.Choose(maxLen + 1)
+	b := vf.Bytes(n)
+	for i := 0; i < n; i++ {
+		vf.Assume(b[i] != 0)
+	}
+	return string(b)
+}
+
+func refCmpStr(op expression.ComparisonType, l, r string) bool {
+	switch op {
+	case expression.Equal:
+		return l == r
+	case expression.NotEqual:
+		return l != r
+	case expression.GreaterThan:
+		return vf.StrLess(r, l)
+	case expression.GreaterThanOrEqual:
+		return !vf.StrLess(l, r)
+	case expression.LessThan:
+		return vf.StrLess(l, r)
+	default:
+		return !vf.StrLess(r, l)
+	}
+}
+
+func varcharN(n int) {
+	db := sysx.Open("vfc06v", 32)
+	db.CreateTable("tv", []sysx.ColDef{{"s", types.Varchar, index_constants.IndexKindSkipList}, {"tag", types.Integer, index_constants.IndexKindInvalid}})
+	s := symStr(2)
+	_, _, ab := db.Auto(sysx.Insert("tv", []string{"s", "tag"}, []types.Value{types.NewVarchar(s), types.NewInteger(7)}))
+	vf.Assert(!ab, "insert is not aborted")
+	if vf.Choose(2) == 1 {
+		db.UpdateStats("tv") // what the statistics thread does; makes the index plan win
+		vf.Note("stats", "updated")
+	}
+	var where *parser.BinaryOpExpression
+	want := true
+	for i := 0; i < n; i++ {
+		op := vf.Choose(6)
+		c := symStr(2)
+		vf.Note("conjunct", "s "+opNames[op])
+		want = want && refCmpStr(ops[op], s, c)
+		e := sysx.Cmp("s", ops[op], types.NewVarchar(c), false)
+		if where == nil {
+			where = e
+		} else {
+			where = sysx.And(where, e)
+		}
+	}
+	rows, sc, ab2 := db.Auto(sysx.Select("tv", []string{"s", "tag"}, where))
+	vf.Assert(!ab2, "select is not aborted")
+	vf.Cover("c06.varchar.done")
+	if want {
+		vf.Assert(len(rows) == 1, "a row satisfying the predicate is returned exactly once (varchar)")
+		vf.Assert(rows[0].GetValue(sc, 0).ToVarchar() == s && rows[0].GetValue(sc, 1).ToInteger() == 7, "varchar value is read back as stored")
+	} else {
+		vf.Assert(len(rows) == 0, "a row not satisfying the predicate is not returned (varchar)")
+	}
+}
+
+func VF_C06_Varchar1() { varcharN(1) }
+func VF_C06_Varchar2() { varcharN(2) }
